@@ -1,8 +1,22 @@
 NOT_APPLICABLE = {}
 
+NOTE = "floats modelled as reals (IEEE rounding outside the claim); bounded in node count as stated; z3 5.1 trusted; every counterexample is replayed on the unpatched real code before it is reported"
+
 
 def fill(register, E1):
+    register("C04",
+             "Every parent table rooted at node 0 (any numbering) with n<=4 (quick) / 5-6 (thorough) nodes, every start node and the three entry points (swc_utils.traverse, Tree.traverse, Tree.Node.traverse) are executed symbolically with the enter/leave callbacks modelled as UNINTERPRETED functions, so the verdict 'result == structural recursion term, each node entered once after its parent with the parent's value, left once after its children with exactly their values, nothing outside the subtree visited' holds for all callbacks, not the few a test can pass. The 10^5-deep chain clause is an auxiliary concrete run, not a solver claim.",
+             NOTE + "; callbacks are pure (uninterpreted) functions of their arguments", E1, "5/C04")
+    register("C05",
+             "sort_nodes_impl / sort_nodes_ / sort_nodes / sort_tree / read_swc(sort_nodes=True) / is_sorted are executed on every single-rooted table within the bound (n<=4 quick / 5 thorough rows, root row anywhere, injective non-contiguous id labelling, symbolic real columns incl. extra columns); z3 enumerates the labellings the code can distinguish and proves per path that the returned map is a bijection preserving parent relation and every column, parents precede children, root 0, and that a second sort is the identity up to sibling order.",
+             NOTE, E1, "5/C05")
+    register("C06",
+             "get_subtree / to_subtree / cut_tree / CutByType (+Axon/Dendrite) / CutByFurcationOrder / CutShortTipBranch / get_neurites / get_dendrites / Node.subtree are executed on every tree with n<=4-5 (quick) / 5-6 (thorough) nodes under every numbering, every start node, every removal set, every callback verdict pattern (fresh symbolic booleans), symbolic real coordinates and threshold; per path the kept set, attributes (symbolic equality), parent relation, root and id mapping are compared with a set-semantics oracle.",
+             NOTE + "; removal of the root is outside the claim", E1, "5/C06")
+    register("C08",
+             "Tree.get_branches/get_paths/get_tips/get_furcations, Node.is_tip/is_furcation/branch, BranchTree.from_tree, ToBranchTree and ToLongestPath are executed on every parent table with root 0 on n<=5 (quick) / 6 (thorough) nodes with symbolic real attributes; the edge partition, branch end conditions, one path per tip, branch-tree node set / parents / remembered branches are decided per path, and maximality of the longest path against every root-to-tip path is an NRA query over sqrt sums.",
+             NOTE, E1, "5/C08")
     register("C12",
              "Every feasible path of the real Translate/TranslateOrigin/Scale/Rotate*/AffineTransform code and of the matrix builders is executed symbolically for trees of n<=2 (quick) / 3 (thorough) nodes with real-valued coordinates, parameters, any angle (cos,sin) and any unit axis; the affine-map obligations (centre fixed, isometry, stated angle right-handed, inverse restores, pid/type/r/extra untouched, input untouched) are decided by z3 NRA for the continuum of values, which tests with a handful of numbers cannot do. Bounded in node count only; the maps act node-wise.",
-             "floats modelled as reals (rounding outside the claim); unit axis assumed for Rotate; z3 5.1 is trusted; formatting of symbolic numbers in repr strings stubbed",
+             NOTE + "; unit axis assumed for Rotate; formatting of symbolic numbers in repr strings stubbed",
              E1, "5/C12")
